@@ -247,6 +247,37 @@ def chain_soup(rng):
     return ''.join(out)
 
 
+def dangling_soup(rng):
+    """Chains like chain_soup's in which an operand may be missing: a
+    middle token directly behind another one ('x as ::', 'a . :=') and a
+    chain that ends on a middle token, at the end of the text, of a
+    statement or of a parenthesis. Aims at accessors and passes that take
+    'the token behind the marker' for granted."""
+    def chain():
+        out = [rng.choice(CHAIN_OPERANDS + ['foo', 'x'])]
+        for _ in range(rng.randint(1, 4)):
+            out.append(rng.choice(['', ' ', ' ', '  '])
+                       + rng.choice(CHAIN_MIDDLES)
+                       + rng.choice(['', ' ', ' ']))
+            if rng.random() < 0.6:
+                out.append(rng.choice(CHAIN_OPERANDS))
+        return ''.join(out)
+    out = []
+    for _ in range(rng.randint(0, 3)):
+        out.append(rng.choice(CHAIN_PREFIX) + ' ')
+    x = rng.random()
+    if x < 0.35:
+        out.append(chain())
+    elif x < 0.6:
+        out.append('(' + chain() + rng.choice([')', ' )', '']))
+    elif x < 0.8:
+        out.append('a in (select ' + chain() + ')')
+    else:
+        out.append(chain() + rng.choice([', ', ' , ']) + chain())
+    out.append(rng.choice(['', '', ' ', ';', '; select 1', ' from t']))
+    return ''.join(out)
+
+
 def bracket_cross(rng, maxitems=12):
     """Square brackets and parentheses that nest and cross; '[' is written
     directly behind a word character / ']' / ')' so that it is punctuation
